@@ -84,6 +84,7 @@ macro_rules! resizable_backops {
         }
     };
 }
+#[cfg(feature = "heap")]
 resizable_backops!(any_vec::mem::Heap, Bk::Heap,
     fn parts<Tr: ?Sized + Trait, T: Elem>(v: AnyVec<Tr, Self>, mode: usize) -> (AnyVec<Tr, Self>, Vec<u64>) { parts_impl::<Tr, Self, T>(v, mode) });
 resizable_backops!(crate::reloc::Reloc, Bk::Reloc,);
